@@ -10,6 +10,7 @@ import (
 	"path/filepath"
 	"strconv"
 	"strings"
+	"unicode"
 
 	"github.com/clipperhouse/uax29/v2/words"
 	"golang.org/x/text/unicode/norm"
@@ -228,6 +229,33 @@ func init() {
 			}
 			return filepath.Join(parts...)
 		},
+		"(golang.org/x/text/unicode/norm.Form).IsNormalString": func(fr *frame, a []value) value {
+			return norm.Form(asInt(a[0])).IsNormalString(a[1].(string))
+		},
+		"(golang.org/x/text/unicode/norm.Form).QuickSpanString": func(fr *frame, a []value) value {
+			return norm.Form(asInt(a[0])).QuickSpanString(a[1].(string))
+		},
+		"(golang.org/x/text/unicode/norm.Form).Bytes": func(fr *frame, a []value) value {
+			in := a[1].([]value)
+			b := make([]byte, len(in))
+			for i, x := range in {
+				b[i] = x.(uint8)
+			}
+			out := norm.Form(asInt(a[0])).Bytes(b)
+			res := make([]value, len(out))
+			for i, x := range out {
+				res[i] = x
+			}
+			return res
+		},
+		"unicode.IsUpper": func(fr *frame, a []value) value { return unicode.IsUpper(rune(asInt(a[0]))) },
+		"unicode.IsLower": func(fr *frame, a []value) value { return unicode.IsLower(rune(asInt(a[0]))) },
+		"unicode.IsLetter": func(fr *frame, a []value) value { return unicode.IsLetter(rune(asInt(a[0]))) },
+		"unicode.IsDigit": func(fr *frame, a []value) value { return unicode.IsDigit(rune(asInt(a[0]))) },
+		"unicode.IsSpace": func(fr *frame, a []value) value { return unicode.IsSpace(rune(asInt(a[0]))) },
+		"unicode.IsPunct": func(fr *frame, a []value) value { return unicode.IsPunct(rune(asInt(a[0]))) },
+		"unicode.ToLower": func(fr *frame, a []value) value { return int32(unicode.ToLower(rune(asInt(a[0])))) },
+		"unicode.ToUpper": func(fr *frame, a []value) value { return int32(unicode.ToUpper(rune(asInt(a[0])))) },
 		"(golang.org/x/text/unicode/norm.Form).String": func(fr *frame, a []value) value {
 			return norm.Form(asInt(a[0])).String(a[1].(string))
 		},
